@@ -163,7 +163,8 @@ class IPSW:
 
         if bound:
             self.sample['__denom__'] = probability_bounds(self.sample['__denom__'], bounds=bound)
-            self.sample['__numer__'] = probability_bounds(self.sample['__numer__'], bounds=bound)
+            if stabilized:  # the unstabilized numerator is the constant 1, not a probability to truncate
+                self.sample['__numer__'] = probability_bounds(self.sample['__numer__'], bounds=bound)
 
         # Calculate IPSW (generalizability)
         if self.generalize:
